@@ -337,3 +337,21 @@ TSSTEP = {"name": "step.ts.audio", "files": [G + "c02_step.go"] + MUX, "fn": "Ve
           "reach": ["cut", "size-limit", "end"]}
 CHECKS["C02"]["runs"] = CHECKS["C02"]["runs"] + [TSSTEP]
 CHECKS["C18"]["runs"] = CHECKS["C18"]["runs"] + [TSSTEP]
+
+VIEW = {"name": "conc.view", "files": [G + "c08_view.go", G + "c08_race.go", G + "c06_reload.go"] + MUX, "fn": "VerifH_C08_view", "workers": 16, "params": {"VARIANT": 1, "PRE": 5},
+        "preempt_quick": 2, "preempt_thorough": 3, "reach": ["raced", "end"]}
+VIEW2 = dict(VIEW, name="conc.view.fmp4", params={"VARIANT": 2, "PRE": 5})
+CHECKS["C08"]["runs"] = CHECKS["C08"]["runs"] + [VIEW, VIEW2]
+CHECKS["C04"]["runs"] = CHECKS["C04"]["runs"] + [VIEW, VIEW2]
+CHECKS["C06"]["runs"] = CHECKS["C06"]["runs"] + [
+    {"name": "conc.reload.2waiters", "files": C06F, "fn": "VerifH_C06_reload", "workers": 16, "params": {"WAITERS": 2}, "params_quick": {"K": 3}, "params_thorough": {"K": 4},
+     "reach": ["answered", "blocked", "end"], "budget_quick": 900, "budget_thorough": 7200, "replay_timeout": 120}]
+
+CLITS = [G + "cli_ts.go"] + CLIP
+TSRUN = {"name": "run.cli.ts", "files": CLITS, "fn": "VerifH_C10_ts", "workers": 16, "params_quick": {"MAXSEGS": 2, "MAXV": 1, "MAXA": 1}, "params_thorough": {"MAXSEGS": 2, "MAXV": 2, "MAXA": 2},
+         "reach": ["ran"], "budget_quick": 900, "budget_thorough": 7200, "qtimeout": 90000}
+CHECKS["C10"]["runs"] = CHECKS["C10"]["runs"] + [TSRUN]
+CHECKS["C09"]["runs"] = CHECKS["C09"]["runs"] + [dict(TSRUN, name="client.ts.times")]
+CHECKS["C12"]["runs"] = CHECKS["C12"]["runs"] + [{"name": "conc.ts.backpressure", "files": CLITS, "fn": "VerifH_C12_tsBackpressure", "workers": 4, "reach": ["backpressure", "end"], "native": False}]
+CHECKS["C10"]["outside"] = ["MPEG-TS demuxing itself (mpegts.Reader is the boundary; TimeDecoder is interpreted)", "rendition playlists processed by a second stream processor", "byte-range addressing (C11)",
+                            "AbsoluteTime of non-leading MPEG-TS units that precede their segment's first leading unit in file order when PROGRAM-DATE-TIME is inconsistent with media time (they are anchored through the previous segment)"]
